@@ -2239,6 +2239,12 @@ impl<'store> AnnotationStore {
                     for resource in remove_resources {
                         self.remove(resource)?;
                     }
+                    for dataset in remove_datasets {
+                        //(a data set can be in more than one row)
+                        if StoreFor::<AnnotationDataSet>::has(self, dataset) {
+                            self.remove(dataset)?;
+                        }
+                    }
                     for annotation in remove_annotations {
                         //the removal of an earlier result may have taken this one along already
                         //(an annotation on an annotation is removed with its target)
